@@ -33,11 +33,15 @@ func oracleConfig(t *rapid.T) sim.Config {
 	for i := 0; i < nf; i++ {
 		mn := int(cfg.OracleMaxNonce)
 		f := sim.FeederCfg{Asset: i, StartBaseBlock: uint64(rapid.IntRange(1, 6).Draw(t, "startBase")), Interval: uint64(rapid.IntRange(2*mn, 2*mn+5).Draw(t, "interval"))}
-		if uniform(t, 5, "ends?") == 0 {
+		if uniform(t, 3, "ends?") == 0 {
 			// the end block must not fall into the window of a round
 			k := uint64(rapid.IntRange(0, 4).Draw(t, "endK"))
 			r := uint64(rapid.IntRange(mn, int(f.Interval)-1).Draw(t, "endR"))
 			f.EndBlock = f.StartBaseBlock + k*f.Interval + r
+			if uniform(t, 3, "resume?") > 0 {
+				f.ResumeAfter = uint64(rapid.IntRange(1, 8).Draw(t, "resumeAfter"))
+				f.ResumeInterval = uint64(rapid.IntRange(2*mn, 2*mn+5).Draw(t, "resumeInterval"))
+			}
 		}
 		cfg.Feeders = append(cfg.Feeders, f)
 	}
@@ -46,7 +50,7 @@ func oracleConfig(t *rapid.T) sim.Config {
 }
 
 func oracleWeights() map[string]int {
-	return map[string]int{"price": 60, "nextBlock": 24, "depositLST": 2, "delegate": 3, "undelegate": 1, "optOut": 1}
+	return map[string]int{"price": 60, "nextBlock": 24, "depositLST": 2, "delegate": 3, "undelegate": 1, "optOut": 3, "optIn": 2}
 }
 
 func init() {
